@@ -25,7 +25,7 @@ import (
 type Expr struct {
 	K   string `json:"k"`
 	Fn  string `json:"fn,omitempty"`
-	Arg string `json:"arg,omitempty"` // x, y, z, w, *, "x * 2", "x + y", "x - 1"
+	Arg string `json:"arg,omitempty"` // x, y, z, w, *, or "<col> <op> <col|number>" (exprArgs)
 	Lit string `json:"lit,omitempty"`
 	Op  string `json:"op,omitempty"`
 	L   *Expr  `json:"l,omitempty"`
@@ -233,25 +233,26 @@ func cellOf(r gen.Row, arg string) value {
 		f, _ := v.Num()
 		return value{f: f}
 	}
-	switch arg {
-	case "x * 2":
-		a := num("x")
-		if a.null {
-			return a
+	// "<col> <op> <col|number>"
+	if parts := strings.Split(arg, " "); len(parts) == 3 {
+		l := num(parts[0])
+		var r value
+		if f, err := strconv.ParseFloat(parts[2], 64); err == nil {
+			r = value{f: f}
+		} else {
+			r = num(parts[2])
 		}
-		return value{f: a.f * 2}
-	case "x - 1":
-		a := num("x")
-		if a.null {
-			return a
-		}
-		return value{f: a.f - 1}
-	case "x + y":
-		a, b := num("x"), num("y")
-		if a.null || b.null {
+		if l.null || r.null {
 			return value{null: true}
 		}
-		return value{f: a.f + b.f}
+		switch parts[1] {
+		case "+":
+			return value{f: l.f + r.f}
+		case "-":
+			return value{f: l.f - r.f}
+		default:
+			return value{f: l.f * r.f}
+		}
 	}
 	return num(arg)
 }
@@ -442,7 +443,10 @@ func genOp(t *rapid.T, allowDiv bool) string {
 }
 
 var forms = []string{"agg", "agg", "agg-op-lit", "agg-op-lit-op-lit", "lit-op-agg", "lit-op-agg", "agg-op-agg", "agg-op-agg",
-	"paren-left", "paren-right", "paren-whole", "paren-plain", "nested", "exprarg-plain", "exprarg-plus", "exprarg-ratio"}
+	"paren-left", "paren-right", "paren-whole", "paren-plain", "nested", "exprarg-plain", "exprarg-plus", "exprarg-ratio", "exprarg-pair"}
+
+// arithmetic arguments of aggregates; all exact on quarter-step inputs
+var exprArgs = []string{"x * 2", "x - 1", "x + y", "y * 3", "z + 1", "y - x", "z * 0.5"}
 
 func genItem(t *rapid.T) Item {
 	form := rapid.SampledFrom(forms).Draw(t, "form")
@@ -450,7 +454,7 @@ func genItem(t *rapid.T) Item {
 	if (form == "agg-op-lit" || form == "agg-op-lit-op-lit") && pbt.Open("C07", fAggOpLit) {
 		form = "lit-op-agg"
 	}
-	if (form == "exprarg-plus" || form == "exprarg-ratio") && pbt.Open("C07", fExprArgComp) {
+	if (form == "exprarg-plus" || form == "exprarg-ratio" || form == "exprarg-pair") && pbt.Open("C07", fExprArgComp) {
 		form = "agg-op-agg"
 	}
 	if form == "paren-plain" && pbt.Open("C07", fParenPlain) {
@@ -520,13 +524,25 @@ func genItem(t *rapid.T) Item {
 	case "nested": // ((agg + lit) * lit) - agg
 		e = bin(genOp(t, false), paren(bin(genOp(t, true), paren(bin(genOp(t, false), genAgg(t, nullable), genLit(t))), genLit(t))), genAgg(t, nullable))
 	case "exprarg-plain":
-		e = agg(rapid.SampledFrom(aggFns).Draw(t, "fn"), rapid.SampledFrom([]string{"x * 2", "x + y", "x - 1"}).Draw(t, "earg"))
+		e = agg(rapid.SampledFrom(aggFns).Draw(t, "fn"), rapid.SampledFrom(exprArgs).Draw(t, "earg"))
 	case "exprarg-plus": // agg(x * 2) + 1
-		a := agg(rapid.SampledFrom(aggFns).Draw(t, "fn"), rapid.SampledFrom([]string{"x * 2", "x - 1", "x + y"}).Draw(t, "earg"))
+		a := agg(rapid.SampledFrom(aggFns).Draw(t, "fn"), rapid.SampledFrom(exprArgs).Draw(t, "earg"))
 		if rapid.Bool().Draw(t, "litfirst") {
 			e = bin(genOp(t, false), genLit(t), a)
 		} else {
 			e = bin(genOp(t, true), a, genLit(t))
+		}
+	case "exprarg-pair": // agg(x * 2) + agg(y * 3): every aggregate of one item evaluates its own argument
+		fns := []string{"sum", "avg", "min", "max", "count"}
+		l := agg(rapid.SampledFrom(fns).Draw(t, "fn"), rapid.SampledFrom(exprArgs).Draw(t, "earg"))
+		r := agg(rapid.SampledFrom(fns).Draw(t, "fn2"), rapid.SampledFrom(exprArgs).Draw(t, "earg2"))
+		e = bin(genOp(t, false), l, r)
+		if rapid.IntRange(0, 3).Draw(t, "third") == 0 {
+			op3 := genOp(t, false)
+			if op3 == "*" && e.Op != "*" {
+				e = paren(e) // the renderer does not add parentheses by precedence
+			}
+			e = bin(op3, e, agg(rapid.SampledFrom(fns).Draw(t, "fn3"), rapid.SampledFrom(append([]string{"x", "y"}, exprArgs...)).Draw(t, "earg3")))
 		}
 	default: // exprarg-ratio: agg(x + y) / agg(z)
 		e = bin("/", agg(rapid.SampledFrom([]string{"sum", "avg", "min", "max"}).Draw(t, "fn"), "x + y"), agg(rapid.SampledFrom([]string{"sum", "avg", "min", "max"}).Draw(t, "divfn"), "z"))
@@ -1546,7 +1562,7 @@ func features(c Case) []string {
 
 var spec = pbt.Spec[Case]{
 	ID:   "C07",
-	Rule: "generated programs over two batch sources: an event-time tumbling window (1-2 consecutive windows, 1-5 groups interleaved, then a flush row) giving multi-group batches, and CountingWindow(N) without grouping giving 1-4 single-group batches. SELECT items (aliased): agg(x), agg(x) op lit, agg(x) op lit op lit, lit op agg(x), agg(x) op agg(y), (agg op lit) op X, X op (agg op Y), (agg op X), (agg(x)), ((agg op lit) op lit) op agg, agg(x*2), agg(x*2) op lit, agg(x+y)/agg(z); agg in sum/avg/min/max/count, divisors never zero; upper/lower-case function names. HAVING: 1-3 comparisons (> >= < <= and = on exact operands) of an alias, a selected aggregate, an unselected aggregate, arithmetic over two aggregates or an aggregate over an arithmetic argument with a threshold drawn next to the groups' values, joined by AND/OR with optional parentheses, written before or after WITH. ORDER BY 1-2 output columns (aliases, g) ASC/DESC; LIMIT 1..groups+1; DISTINCT incl. count(*)-only projections. values: small ints and quarter-step floats, x NULL/missing in some rows, w often NULL (w-items never used in HAVING/ORDER BY). oracle: relational reference (reference aggregates, float64 arithmetic, NULL-propagating), HAVING -> projection -> DISTINCT -> ORDER BY -> LIMIT per batch: key set, item values (rel. tol 1e-9), exact HAVING membership, ORDER BY validity of adjacent rows, LIMIT size and prefix-of-a-valid-order, no duplicates under DISTINCT, one delivery per batch with a survivor and none otherwise. non-trivial = (a compound item or a HAVING operand that is not a selected column) and a batch with >= 2 groups; distinct by case hash",
+	Rule: "generated programs over two batch sources: an event-time tumbling window (1-2 consecutive windows, 1-5 groups interleaved, then a flush row) giving multi-group batches, and CountingWindow(N) without grouping giving 1-4 single-group batches. SELECT items (aliased): agg(x), agg(x) op lit, agg(x) op lit op lit, lit op agg(x), agg(x) op agg(y), (agg op lit) op X, X op (agg op Y), (agg op X), (agg(x)), ((agg op lit) op lit) op agg, agg(x*2), agg(x*2) op lit, agg(x+y)/agg(z), agg(x*2) op agg(y*3) [op agg(..)] over 7 arithmetic arguments; agg in sum/avg/min/max/count, divisors never zero; upper/lower-case function names. HAVING: 1-3 comparisons (> >= < <= and = on exact operands) of an alias, a selected aggregate, an unselected aggregate, arithmetic over two aggregates or an aggregate over an arithmetic argument with a threshold drawn next to the groups' values, joined by AND/OR with optional parentheses, written before or after WITH. ORDER BY 1-2 output columns (aliases, g) ASC/DESC; LIMIT 1..groups+1; DISTINCT incl. count(*)-only projections. values: small ints and quarter-step floats, x NULL/missing in some rows, w often NULL (w-items never used in HAVING/ORDER BY). oracle: relational reference (reference aggregates, float64 arithmetic, NULL-propagating), HAVING -> projection -> DISTINCT -> ORDER BY -> LIMIT per batch: key set, item values (rel. tol 1e-9), exact HAVING membership, ORDER BY validity of adjacent rows, LIMIT size and prefix-of-a-valid-order, no duplicates under DISTINCT, one delivery per batch with a survivor and none otherwise. non-trivial = (a compound item or a HAVING operand that is not a selected column) and a batch with >= 2 groups; distinct by case hash",
 	Assumptions: []string{
 		"ties and NULL placement under ORDER BY are unspecified (NULL sort keys are not generated)",
 		"a HAVING comparison whose inexact operand (avg, division, non-dyadic literal) is within 1e-9 of the threshold may go either way",
